@@ -338,6 +338,7 @@ impl Scenario for StreamSc {
             ));
         }
         let horizon = Duration::from_millis(cfg.horizon_ms);
+        sched::register_machines(&machines);
         let status = sched::block_on_paused_send(async move {
             sched::start_clock();
             run_internet_with_timeout(&machines, horizon).await
@@ -764,6 +765,7 @@ impl Scenario for DgramSc {
             ),
             socket_host(&net, ip(30), cfg.arp, DgBystander { sh: sh.clone() }),
         ];
+        sched::register_machines(&machines);
         let status = sched::block_on_paused_send(async move {
             sched::start_clock();
             run_internet_with_timeout(&machines, Duration::from_millis(1500)).await
